@@ -376,7 +376,7 @@ Lemma sweep_rel kinds now : forall c1 c2, Rc c1 c2 -> Rc (sweep T1 O1 kinds c1 n
 Proof.
   intros c1 c2 H. induction H as [|[k1 b1] [k2 b2] c1 c2 [Hk Hb] Hc IH]; [constructor|].
   simpl in *. subst k2. destruct (kinds (fst k1)).
-  - destruct (evict_rel _ _ now Hb) as [Hkept _].
+  - destruct (evict_rel _ _ now Hb) as [Hkept _]. unfold evict in Hkept. simpl in Hkept.
     rewrite (Rb_nil_iff _ _ Hkept). destruct (is_nil _); [assumption|].
     constructor; [split; [reflexivity | assumption] | assumption].
   - constructor; [split; [reflexivity | assumption] | assumption].
@@ -475,9 +475,9 @@ Proof.
   destruct (evict_services T1 O1 z1 now (sc_browse cfg)) as [w1 rs1].
   destruct (evict_services T2 O2 z2 now (sc_browse cfg)) as [w2 rs2]. simpl in Hc3, Hrs. subst rs2.
   destruct (evict_addrs_rel _ _ now (sc_host cfg) Hc3) as [Hc4 Hra].
-  destruct (evict_addrs T1 O1 w1 now (sc_host cfg)) as [v1 ra1].
-  destruct (evict_addrs T2 O2 w2 now (sc_host cfg)) as [v2 ra2]. simpl in Hc4, Hra. subst ra2.
-  do 4 eexists. repeat split; [assumption|]. simpl.
+  unfold evict_addrs in Hc4, Hra. simpl in Hc4, Hra.
+  do 4 eexists. split; [reflexivity|]. split; [reflexivity|]. split; [exact Hc4|].
+  unfold io_eq. simpl. split; [|split; [reflexivity | exact Hra]].
   repeat apply Forall2_app_qd; assumption.
 Qed.
 
